@@ -1,1 +1,609 @@
-fn main(){}
+//! E3: block-store stress (C08). Real `EngineManager` + `EngineManagerRunner` over a monitoring
+//! `EngineInterface`; concurrent submitters (in order, out of order, duplicated, invalid, forked),
+//! lagging / stalled / jumping persistence, pruning, failures and restarts.
+use std::{
+    collections::{BTreeMap, HashMap},
+    sync::{
+        atomic::{AtomicBool, AtomicU64, Ordering},
+        Arc, Mutex,
+    },
+};
+
+use rand::{rngs::StdRng, seq::SliceRandom, Rng};
+use vcommon::{json, rng_for, Args, Report};
+use zksync_concurrency::{ctx, scope, sync, time};
+use zksync_consensus_engine::{BlockStoreState, EngineInterface, EngineManager, Last, Transaction};
+use zksync_consensus_roles::validator::{self, testonly::Setup};
+
+#[derive(Debug, Clone)]
+struct Call {
+    number: u64,
+    hash: validator::PayloadHash,
+    durable_next: u64,
+    incarnation: u64,
+    pregenesis: bool,
+}
+
+#[derive(Debug)]
+struct Inner {
+    genesis: validator::Genesis,
+    persisted: sync::watch::Sender<BlockStoreState>,
+    blocks: Mutex<BTreeMap<u64, validator::Block>>,
+    pregenesis: HashMap<u64, validator::PreGenesisBlock>,
+    calls: Mutex<Vec<Call>>,
+    incarnation: AtomicU64,
+    /// persistence mode: 0 immediate, 1 stalled (queue_next_block waits), 2 fail next call
+    mode: AtomicU64,
+    verify_called_for_pregenesis: AtomicU64,
+    stop: AtomicBool,
+}
+
+#[derive(Debug, Clone)]
+struct MonEngine(Arc<Inner>);
+
+impl MonEngine {
+    fn next(&self) -> u64 {
+        self.0.persisted.borrow().next().0
+    }
+    fn store(&self, b: validator::Block) {
+        self.0.blocks.lock().unwrap().insert(b.number().0, b.clone());
+        self.0.persisted.send_modify(|p| p.last = Some(Last::from(&b)));
+    }
+    /// side channel: the durable store jumps ahead by `k` blocks of the canonical chain
+    fn jump(&self, chain: &[validator::Block], k: u64) -> u64 {
+        let mut n = 0;
+        for _ in 0..k {
+            let next = self.next();
+            let Some(b) = chain.iter().find(|b| b.number().0 == next) else { break };
+            self.store(b.clone());
+            n += 1;
+        }
+        n
+    }
+    fn prune(&self, first: u64) {
+        let mut blocks = self.0.blocks.lock().unwrap();
+        let keys: Vec<u64> = blocks.keys().copied().filter(|k| *k < first).collect();
+        for k in keys {
+            blocks.remove(&k);
+        }
+        drop(blocks);
+        self.0.persisted.send_if_modified(|s| {
+            if s.first.0 >= first || s.next().0 <= first {
+                return false;
+            }
+            s.first = validator::BlockNumber(first);
+            true
+        });
+    }
+}
+
+#[async_trait::async_trait]
+impl EngineInterface for MonEngine {
+    async fn genesis(&self, _ctx: &ctx::Ctx) -> ctx::Result<validator::Genesis> {
+        Ok(self.0.genesis.clone())
+    }
+    async fn get_validator_schedule(&self, _ctx: &ctx::Ctx, _n: validator::BlockNumber) -> ctx::Result<(validator::Schedule, validator::BlockNumber)> {
+        Ok((self.0.genesis.validators_schedule.clone().unwrap(), self.0.genesis.first_block))
+    }
+    async fn get_pending_validator_schedule(&self, _ctx: &ctx::Ctx, _n: validator::BlockNumber) -> ctx::Result<Option<(validator::Schedule, validator::BlockNumber)>> {
+        Ok(None)
+    }
+    fn persisted(&self) -> sync::watch::Receiver<BlockStoreState> {
+        self.0.persisted.subscribe()
+    }
+    async fn get_block(&self, _ctx: &ctx::Ctx, number: validator::BlockNumber) -> ctx::Result<validator::Block> {
+        Ok(self.0.blocks.lock().unwrap().get(&number.0).cloned().ok_or_else(|| anyhow::anyhow!("not found"))?)
+    }
+    async fn queue_next_block(&self, ctx: &ctx::Ctx, block: validator::Block) -> ctx::Result<()> {
+        let want = self.next();
+        self.0.calls.lock().unwrap().push(Call {
+            number: block.number().0,
+            hash: block.payload().hash(),
+            durable_next: want,
+            incarnation: self.0.incarnation.load(Ordering::SeqCst),
+            pregenesis: matches!(block, validator::Block::PreGenesis(_)),
+        });
+        loop {
+            match self.0.mode.load(Ordering::SeqCst) {
+                1 => {
+                    if !ctx.is_active() {
+                        return Err(ctx::Canceled.into());
+                    }
+                    ctx.sleep(time::Duration::milliseconds(1)).await?;
+                }
+                2 => {
+                    self.0.mode.store(0, Ordering::SeqCst);
+                    return Err(anyhow::format_err!("injected storage failure").into());
+                }
+                _ => break,
+            }
+        }
+        let want = self.next();
+        if block.number().0 < want {
+            return Ok(());
+        }
+        if block.number().0 > want {
+            return Err(anyhow::format_err!("got block {}, want {want}", block.number().0).into());
+        }
+        self.store(block);
+        Ok(())
+    }
+    async fn verify_pregenesis_block(&self, _ctx: &ctx::Ctx, block: &validator::PreGenesisBlock) -> ctx::Result<()> {
+        self.0.verify_called_for_pregenesis.fetch_add(1, Ordering::SeqCst);
+        if self.0.pregenesis.get(&block.number.0) != Some(block) {
+            return Err(anyhow::format_err!("invalid pre-genesis block").into());
+        }
+        Ok(())
+    }
+    async fn verify_payload(&self, _ctx: &ctx::Ctx, _n: validator::BlockNumber, _p: &validator::Payload) -> ctx::Result<()> {
+        Ok(())
+    }
+    async fn propose_payload(&self, _ctx: &ctx::Ctx, _n: validator::BlockNumber) -> ctx::Result<validator::Payload> {
+        Ok(validator::Payload(vec![]))
+    }
+    async fn get_state(&self, _ctx: &ctx::Ctx) -> ctx::Result<validator::ReplicaState> {
+        Ok(validator::ReplicaState::default())
+    }
+    async fn set_state(&self, _ctx: &ctx::Ctx, _s: &validator::ReplicaState) -> ctx::Result<()> {
+        Ok(())
+    }
+    async fn push_tx(&self, _ctx: &ctx::Ctx, _tx: Transaction) -> ctx::Result<bool> {
+        Ok(true)
+    }
+}
+
+/// A block offered to the store, with the generator's ground truth.
+#[derive(Clone)]
+struct Offer {
+    block: validator::Block,
+    class: &'static str,
+    valid: bool,
+}
+
+struct Fixture {
+    setup: Setup,
+    chain: Vec<validator::Block>,
+    fork: Vec<validator::Block>,
+    invalid: Vec<Offer>,
+}
+
+fn make_fixture(rng: &mut StdRng, len: usize) -> Fixture {
+    let mut setup = Setup::new(rng, 3);
+    // the fork shares the pre-genesis blocks and the first `common` certified blocks
+    let common = rng.gen_range(0..len / 2);
+    setup.push_blocks_v2(rng, common);
+    let mut fork_setup = setup.clone();
+    setup.push_blocks_v2(rng, len - common);
+    let fork_len = rng.gen_range(1..20usize);
+    fork_setup.push_blocks_v2(rng, fork_len);
+    let chain: Vec<validator::Block> = setup.blocks.clone();
+    let fork: Vec<validator::Block> = fork_setup.blocks.iter().filter(|b| !chain.contains(b)).cloned().collect();
+    let mut invalid = vec![];
+    let finals: Vec<&validator::v2::FinalBlock> = chain.iter().filter_map(|b| if let validator::Block::FinalV2(f) = b { Some(f) } else { None }).collect();
+    for _ in 0..40 {
+        let f = (*finals.choose(rng).unwrap()).clone();
+        let (class, bad): (&'static str, validator::Block) = match rng.gen_range(0..6) {
+            0 => {
+                let mut b = f.clone();
+                b.payload.0.push(1);
+                ("payload-hash-mismatch", b.into())
+            }
+            1 => {
+                let mut b = f.clone();
+                b.justification.signature = Default::default();
+                ("bad-certificate-signature", b.into())
+            }
+            2 => {
+                let mut b = f.clone();
+                b.justification.message.view.epoch = validator::EpochNumber(7);
+                ("unknown-epoch", b.into())
+            }
+            3 => {
+                let mut b = f.clone();
+                let n = b.justification.signers.len();
+                for i in 1..n {
+                    b.justification.signers.0.set(i, false);
+                }
+                ("certificate-below-quorum", b.into())
+            }
+            4 => ("pre-genesis-number-at-or-after-first-block", validator::PreGenesisBlock { number: f.number(), payload: f.payload.clone(), justification: validator::Justification(vec![1, 2, 3]) }.into()),
+            _ => {
+                // wrong content for a genuine pre-genesis number
+                match chain.iter().find_map(|b| if let validator::Block::PreGenesis(p) = b { Some(p.clone()) } else { None }) {
+                    Some(mut p) => {
+                        p.payload.0.push(9);
+                        ("wrong-pre-genesis-content", p.into())
+                    }
+                    None => {
+                        let mut b = f.clone();
+                        b.payload.0.clear();
+                        ("payload-hash-mismatch", b.into())
+                    }
+                }
+            }
+        };
+        invalid.push(Offer { block: bad, class, valid: false });
+    }
+    Fixture { setup, chain, fork, invalid }
+}
+
+struct Probe {
+    /// first payload observed per number (read-backs and submissions must agree forever)
+    seen: Mutex<BTreeMap<u64, validator::PayloadHash>>,
+    last_persisted_next: AtomicU64,
+    last_queued_next: AtomicU64,
+    violations: Mutex<Vec<(String, String)>>,
+    readbacks: AtomicU64,
+    max_lag: AtomicU64,
+    max_queued_span: AtomicU64,
+}
+
+impl Probe {
+    fn fail(&self, sig: &str, detail: String) {
+        let mut v = self.violations.lock().unwrap();
+        if v.iter().filter(|x| x.0 == sig).count() < 3 {
+            v.push((sig.to_string(), detail));
+        }
+    }
+
+    async fn check(&self, ctx: &ctx::Ctx, m: &EngineManager, engine: &MonEngine, valid: &HashMap<(u64, validator::PayloadHash), ()>, rng_pick: u64) {
+        // read persisted first, then queued: both only move forward, so p.next <= q.next must hold
+        let p = m.persisted();
+        let q = m.queued();
+        if p.next() > q.next() {
+            self.fail("persisted-ahead-of-queued", format!("persisted.next {} > queued.next {}", p.next().0, q.next().0));
+        }
+        if q.first < p.first {
+            self.fail("queued-starts-before-persisted", format!("queued.first {} < persisted.first {}", q.first.0, p.first.0));
+        }
+        let lp = self.last_persisted_next.fetch_max(p.next().0, Ordering::SeqCst);
+        if p.next().0 < lp {
+            self.fail("persisted-range-shrank", format!("persisted.next went from {lp} to {}", p.next().0));
+        }
+        let lq = self.last_queued_next.fetch_max(q.next().0, Ordering::SeqCst);
+        if q.next().0 < lq {
+            self.fail("queued-range-shrank", format!("queued.next went from {lq} to {}", q.next().0));
+        }
+        self.max_lag.fetch_max(q.next().0.saturating_sub(p.next().0), Ordering::SeqCst);
+        self.max_queued_span.fetch_max(q.next().0.saturating_sub(q.first.0), Ordering::SeqCst);
+        // read-back: both boundaries plus a pseudo-random number inside the queued range
+        if q.last.is_none() {
+            return;
+        }
+        let (lo, hi) = (q.first.0, q.next().0 - 1);
+        for n in [lo, hi, lo + rng_pick % (hi - lo + 1), p.next().0.min(hi)] {
+            self.readbacks.fetch_add(1, Ordering::SeqCst);
+            match m.get_block(ctx, validator::BlockNumber(n)).await {
+                Ok(Some(b)) => {
+                    if b.number().0 != n {
+                        self.fail("read-back-wrong-number", format!("asked for {n}, got {}", b.number().0));
+                    }
+                    let h = b.payload().hash();
+                    if !valid.contains_key(&(n, h)) {
+                        self.fail("unverified-block-in-store", format!("block {n} read back with a payload that is neither the canonical nor the certified fork block"));
+                    }
+                    let mut seen = self.seen.lock().unwrap();
+                    let first = *seen.entry(n).or_insert(h);
+                    if first != h {
+                        self.fail("block-substituted", format!("block {n} read back with a different payload than before"));
+                    }
+                }
+                Ok(None) | Err(ctx::Error::Internal(_)) => {
+                    // legitimate only if it was pruned meanwhile; the pruning floor is the storage's own (the manager
+                    // learns about it asynchronously)
+                    let q2 = m.queued();
+                    let floor = engine.0.persisted.borrow().first.0;
+                    if q2.contains(validator::BlockNumber(n)) && n >= q2.first.0 && n >= floor {
+                        self.fail("available-block-cannot-be-read", format!("block {n} is within queued range [{}, {}] but get_block did not return it (persisted.next {})", q2.first.0, q2.next().0 - 1, m.persisted().next().0));
+                    }
+                }
+                Err(ctx::Error::Canceled(_)) => {}
+            }
+        }
+    }
+}
+
+fn run_case(rep: &mut Report, args: &Args, case: u64, multi: bool) {
+    let mut rng = rng_for(args.seed, args.shard, 8, case);
+    let len = rng.gen_range(110..260usize);
+    let fx = make_fixture(&mut rng, len);
+    let first_stored = fx.chain.first().map(|b| b.number()).unwrap_or(fx.setup.first_block());
+    let engine = MonEngine(Arc::new(Inner {
+        genesis: fx.setup.genesis.clone(),
+        persisted: sync::watch::channel(BlockStoreState { first: first_stored, last: None }).0,
+        blocks: Mutex::default(),
+        pregenesis: fx.chain.iter().filter_map(|b| if let validator::Block::PreGenesis(p) = b { Some((p.number.0, p.clone())) } else { None }).collect(),
+        calls: Mutex::default(),
+        incarnation: AtomicU64::new(0),
+        mode: AtomicU64::new(0),
+        verify_called_for_pregenesis: AtomicU64::new(0),
+        stop: AtomicBool::new(false),
+    }));
+    let mut valid: HashMap<(u64, validator::PayloadHash), ()> = HashMap::new();
+    for b in fx.chain.iter().chain(fx.fork.iter()) {
+        valid.insert((b.number().0, b.payload().hash()), ());
+    }
+    let probe = Probe { seen: Mutex::default(), last_persisted_next: AtomicU64::new(0), last_queued_next: AtomicU64::new(0), violations: Mutex::default(), readbacks: AtomicU64::new(0), max_lag: AtomicU64::new(0), max_queued_span: AtomicU64::new(0) };
+    let rt = if multi { tokio::runtime::Builder::new_multi_thread().worker_threads(4).enable_time().build().unwrap() } else { tokio::runtime::Builder::new_current_thread().enable_time().build().unwrap() };
+    let phases = rng.gen_range(2..5);
+    // a validly certified fork and a side channel that persists canonical blocks cannot coexist in one world:
+    // a case offers either fork blocks or side-channel jumps
+    let with_fork = rng.gen_bool(0.5);
+    let counters: Mutex<BTreeMap<String, u64>> = Mutex::default();
+    let bump = |k: &str| *counters.lock().unwrap().entry(k.to_string()).or_default() += 1;
+    let last_number = fx.chain.last().unwrap().number().0;
+    rt.block_on(async {
+        let root = ctx::root();
+        for phase in 0..phases {
+            let last_phase = phase + 1 == phases;
+            engine.0.incarnation.fetch_add(1, Ordering::SeqCst);
+            engine.0.mode.store(0, Ordering::SeqCst);
+            engine.0.stop.store(false, Ordering::SeqCst);
+            // the monotonicity floors are per manager incarnation (a restart forgets the unpersisted queue)
+            probe.last_queued_next.store(0, Ordering::SeqCst);
+            // blocks that were queued but not durable are forgotten by a restart: only durable numbers stay bound
+            {
+                let d = engine.next();
+                probe.seen.lock().unwrap().retain(|n, _| *n < d);
+            }
+            let (manager, runner) = match EngineManager::new(&root, Box::new(engine.clone()), time::Duration::seconds(1)).await {
+                Ok(x) => x,
+                Err(e) => {
+                    probe.fail("manager-start-failed", format!("{e:?}"));
+                    return;
+                }
+            };
+            bump("manager_incarnations");
+            let seed = rng.gen::<u64>();
+            let nsub = rng.gen_range(4..=12usize);
+            let (fx, engine, probe, valid, manager) = (&fx, &engine, &probe, &valid, &manager);
+            let bump = &bump;
+            let res: Result<(), ctx::Error> = scope::run!(&root, |ctx, s| async move {
+                let runner_failed = Arc::new(AtomicBool::new(false));
+                {
+                    let rf = runner_failed.clone();
+                    s.spawn_bg(async move {
+                        if runner.run(ctx).await.is_err() {
+                            rf.store(true, Ordering::SeqCst);
+                        }
+                        Ok(())
+                    });
+                }
+                // submitters
+                let mut handles = vec![];
+                for sub in 0..nsub {
+                    let mut r = rng_for(seed, sub as u64, 81, 0);
+                    handles.push(s.spawn(async move {
+                        // each submitter walks the canonical chain from the current head in its own slightly shuffled order,
+                        // interleaving duplicates, invalid and fork blocks
+                        let mut pos = 0usize;
+                        let mut rounds = 0;
+                        while !engine.0.stop.load(Ordering::SeqCst) && (last_phase || rounds < 4000) {
+                            rounds += 1;
+                            let head = manager.queued().next().0;
+                            let offer: Offer = match r.gen_range(0..20) {
+                                0 | 1 => fx.invalid.choose(&mut r).unwrap().clone(),
+                                2 if with_fork => match fx.fork.choose(&mut r) {
+                                    Some(b) => Offer { block: b.clone(), class: "fork", valid: true },
+                                    None => continue,
+                                },
+                                3 => Offer { block: fx.chain.choose(&mut r).unwrap().clone(), class: "random-canonical", valid: true },
+                                _ => {
+                                    // near the head: the needed one, a few ahead (waits), or behind (duplicate)
+                                    let want = head as i64 + [0i64, 0, 0, 1, 2, 5, -1, -3][r.gen_range(0..8)];
+                                    match fx.chain.iter().find(|b| b.number().0 as i64 == want) {
+                                        Some(b) => Offer { block: b.clone(), class: "near-head", valid: true },
+                                        None => {
+                                            pos += 1;
+                                            if head > last_number { break; }
+                                            continue;
+                                        }
+                                    }
+                                }
+                            };
+                            let c = ctx.with_timeout(time::Duration::milliseconds(r.gen_range(1..20)));
+                            let before = manager.queued().next().0;
+                            let res = manager.queue_block(&c, offer.block.clone()).await;
+                            match (&res, offer.valid) {
+                                (Ok(()), false) => {
+                                    // an invalid block must never be accepted: Ok() is only returned after verification
+                                    probe.fail("invalid-block-accepted", format!("queue_block returned Ok for a block of class {}", offer.class));
+                                }
+                                (Ok(()), true) => bump(&format!("accepted_{}", offer.class)),
+                                (Err(ctx::Error::Canceled(_)), _) => bump("submissions_timed_out_waiting_for_gap"),
+                                (Err(_), true) => bump(&format!("refused_valid_{}", offer.class)),
+                                (Err(_), false) => bump(&format!("refused_{}", offer.class)),
+                            }
+                            let _ = (before, pos);
+                            if r.gen_bool(0.3) {
+                                tokio::task::yield_now().await;
+                            }
+                        }
+                        Ok(())
+                    }));
+                }
+                // prober
+                s.spawn_bg(async move {
+                    let mut k = 0u64;
+                    while ctx.is_active() {
+                        k += 1;
+                        probe.check(ctx, manager, engine, valid, k.wrapping_mul(0x9e37_79b9)).await;
+                        if ctx.sleep(time::Duration::microseconds(200)).await.is_err() {
+                            break;
+                        }
+                    }
+                    Ok(())
+                });
+                // controller: persistence modes, jumps, pruning, failures
+                let mut r = rng_for(seed, 999, 82, 0);
+                // some phases stall persistence for their whole duration, so that far more blocks than the cache
+                // capacity (100) are queued but not persisted
+                let long_stall = !last_phase && r.gen_bool(0.4);
+                if long_stall {
+                    engine.0.mode.store(1, Ordering::SeqCst);
+                    bump("long_stall_phases");
+                }
+                let budget_ms = if last_phase { 120_000 } else if long_stall { r.gen_range(150..400) } else { r.gen_range(20..250) };
+                let t0 = std::time::Instant::now();
+                loop {
+                    if ctx.sleep(time::Duration::milliseconds(r.gen_range(1..15))).await.is_err() {
+                        break;
+                    }
+                    if runner_failed.load(Ordering::SeqCst) {
+                        bump("runner_ended_with_error");
+                        break;
+                    }
+                    if last_phase {
+                        engine.0.mode.store(0, Ordering::SeqCst);
+                        if engine.next() > last_number {
+                            break;
+                        }
+                    } else if !long_stall {
+                        match r.gen_range(0..10) {
+                            0 | 1 => {
+                                engine.0.mode.store(1, Ordering::SeqCst);
+                                bump("persistence_stalled");
+                            }
+                            2 | 3 | 4 => engine.0.mode.store(0, Ordering::SeqCst),
+                            5 if !with_fork => {
+                                let n = engine.jump(&fx.chain, r.gen_range(1..30));
+                                if n > 0 {
+                                    bump("side_channel_jumps");
+                                }
+                            }
+                            6 => {
+                                let next = engine.next();
+                                let first = engine.0.persisted.borrow().first.0;
+                                if next > first + 5 {
+                                    engine.prune(r.gen_range(first..next - 2));
+                                    bump("prunes");
+                                }
+                            }
+                            7 => {
+                                engine.0.mode.store(2, Ordering::SeqCst);
+                                bump("storage_failures_injected");
+                            }
+                            _ => {}
+                        }
+                    }
+                    if t0.elapsed().as_millis() as u64 > budget_ms {
+                        break;
+                    }
+                }
+                engine.0.stop.store(true, Ordering::SeqCst);
+                for h in handles {
+                    let _ = h.join(ctx).await;
+                }
+                // final probes at the end of the phase
+                probe.check(ctx, manager, engine, valid, 7).await;
+                if last_phase && engine.next() <= last_number && t0.elapsed().as_millis() as u64 > budget_ms {
+                    // wall-clock watchdog: never a verdict
+                    probe.fail("INCONCLUSIVE-watchdog", format!("final phase did not finish within {budget_ms} ms"));
+                } else if last_phase && engine.next() <= last_number {
+                    probe.fail("valid-chain-not-persisted-at-quiescence", format!("durable head {} after the final phase, chain ends at {last_number}; queued.next {}", engine.next(), manager.queued().next().0));
+                }
+                Ok(())
+            })
+            .await;
+            if let Err(ctx::Error::Internal(e)) = res {
+                probe.fail("phase-failed", format!("{e:#}"));
+            }
+        }
+    });
+    drop(rt);
+    // ---- offline checks over the call log
+    let calls = engine.0.calls.lock().unwrap().clone();
+    rep.add("queue_next_block_calls", calls.len() as u64);
+    let mut prev: Option<(u64, u64)> = None; // (incarnation, number)
+    let mut by_number: BTreeMap<u64, validator::PayloadHash> = BTreeMap::new();
+    let replay = json!({"case": case, "multi": multi});
+    for c in &calls {
+        let follows_prev = matches!(prev, Some((inc, n)) if inc == c.incarnation && c.number == n + 1);
+        let at_head = c.number == c.durable_next;
+        if !follows_prev && !at_head {
+            rep.violation("storage-handoff-out-of-order||".to_string(), format!("block {} handed to storage after {:?} while the durable head expects {}", c.number, prev, c.durable_next), replay.clone());
+        }
+        if !valid.contains_key(&(c.number, c.hash)) {
+            rep.violation("unverified-block-handed-to-storage||".to_string(), format!("block {} (pregenesis={}) handed to storage is not one of the verified blocks", c.number, c.pregenesis), replay.clone());
+        }
+        if let Some(h) = by_number.get(&c.number) {
+            if *h != c.hash {
+                rep.violation("block-substituted||storage".to_string(), format!("two different blocks handed to storage for number {}", c.number), replay.clone());
+            }
+        } else {
+            by_number.insert(c.number, c.hash);
+        }
+        prev = Some((c.incarnation, c.number));
+    }
+    // the durable store is a contiguous chain of verified blocks
+    let blocks = engine.0.blocks.lock().unwrap();
+    let mut expect = None;
+    for (n, b) in blocks.iter() {
+        if let Some(e) = expect {
+            if *n != e {
+                rep.violation("gap-in-durable-store||".to_string(), format!("durable store jumps from {} to {n}", e - 1), replay.clone());
+            }
+        }
+        expect = Some(n + 1);
+        if !valid.contains_key(&(*n, b.payload().hash())) {
+            rep.violation("unverified-block-in-durable-store||".to_string(), format!("block {n}"), replay.clone());
+        }
+    }
+    for (sig, detail) in probe.violations.lock().unwrap().iter() {
+        if sig.starts_with("INCONCLUSIVE") {
+            rep.inconclusive(detail.clone());
+            continue;
+        }
+        rep.violation(format!("{sig}||{}", if multi { "multi-thread" } else { "current-thread" }), detail.clone(), replay.clone());
+    }
+    for (k, v) in counters.lock().unwrap().iter() {
+        rep.add(k, *v);
+    }
+    rep.add("read_backs", probe.readbacks.load(Ordering::SeqCst));
+    rep.max("max_queued_minus_persisted", probe.max_lag.load(Ordering::SeqCst));
+    rep.max("max_queued_span", probe.max_queued_span.load(Ordering::SeqCst));
+    rep.add("pregenesis_verifications", engine.0.verify_called_for_pregenesis.load(Ordering::SeqCst));
+    rep.evaluations += 1;
+    rep.count(if multi { "cases_multi_thread" } else { "cases_current_thread" });
+    rep.distinct(vcommon::hash_of(&(case, multi, calls.iter().map(|c| (c.number, c.durable_next)).collect::<Vec<_>>())));
+    if rep.samples.len() < rep.max_samples {
+        rep.sample(json!({"case": case, "chain_len": fx.chain.len(), "fork_len": fx.fork.len(), "phases": phases, "storage_handoffs": calls.len(),
+            "first_handoffs(number,durable_next)": calls.iter().take(12).map(|c| (c.number, c.durable_next)).collect::<Vec<_>>(),
+            "max_queued_minus_persisted": probe.max_lag.load(Ordering::SeqCst)}));
+    }
+}
+
+fn main() {
+    let args = Args::parse();
+    vcommon::install_quiet_panic_hook();
+    let mut rep = Report::new(&args);
+    rep.rule = "one evaluation = one stress case: a certified chain of 110-260 blocks (+ pre-genesis blocks, a certified fork, 40 invalid variants) offered by 4-12 concurrent \
+                submitters to the real EngineManager over 2-4 manager incarnations with stalled/failing/jumping/pruned persistence; invariants probed continuously, the \
+                storage hand-off log checked offline; distinct = distinct hand-off sequences"
+        .into();
+    let n: u64 = args.extra_u64("cases").unwrap_or(args.pick(6, 150));
+    let only: Option<u64> = args.replay.as_ref().map(|p| {
+        let v: vcommon::Value = vcommon::serde_json::from_slice(&std::fs::read(p).unwrap()).unwrap();
+        v["replay"]["case"].as_u64().unwrap()
+    });
+    for case in 0..n {
+        if let Some(o) = only { if o != case { continue; } } else if !rep.within_budget() { rep.count("stopped_by_budget"); break; }
+        match vcommon::catch(|| {
+            let mut r = Report::new(&args);
+            run_case(&mut r, &args, case, case % 2 == 1);
+            r
+        }) {
+            Ok(r) => {
+                rep.evaluations += r.evaluations;
+                for (k, v) in r.counters { rep.add(&k, v); }
+                for (k, v) in r.maxima { rep.max(&k, v); }
+                for v in r.violations { rep.violation(v.signature, v.detail, v.replay); }
+                for w in r.inconclusive { rep.inconclusive(w); }
+                for s in r.samples { rep.sample(s); }
+                for h in r.hashes { rep.distinct(h); }
+            }
+            Err(p) => rep.violation(format!("panic|{}|", p.loc()), format!("case {case} panicked: {}", p.message), json!({"case": case})),
+        }
+    }
+    std::process::exit(rep.finish());
+}
